@@ -355,17 +355,24 @@ class LinearLeastSquares(App):
         with self.y_device:
             A = self.A
 
+        # Primal part: lamda / 2 * ||x - z||^2, plus g(x) when there is no G.
+        # With G, g(G x) is dualized together with the data term below.
+        if self.G is None:
+            proxh = self.proxg
+        else:
+            proxh = None
+
         if self.lamda > 0:
             gamma_primal = self.lamda
             proxg = prox.L2Reg(
-                self.x.shape, self.lamda, y=self.z, proxh=self.proxg
+                self.x.shape, self.lamda, y=self.z, proxh=proxh
             )
         else:
             gamma_primal = 0
-            if self.proxg is None:
+            if proxh is None:
                 proxg = prox.NoOp(self.x.shape)
             else:
-                proxg = self.proxg
+                proxg = proxh
 
         with self.y_device:
             if self.G is None:
@@ -374,9 +381,12 @@ class LinearLeastSquares(App):
             else:
                 A = linop.Vstack([A, self.G])
                 proxf1c = prox.L2Reg(self.y.shape, 1, y=-self.y)
-                proxf2c = prox.Conj(proxg)
+                if self.proxg is None:
+                    proxf2c = prox.Conj(prox.NoOp(self.G.oshape))
+                else:
+                    proxf2c = prox.Conj(self.proxg)
+
                 proxfc = prox.Stack([proxf1c, proxf2c])
-                proxg = prox.NoOp(self.x.shape)
                 gamma_dual = 0
 
         if self.tau is None:
